@@ -11,6 +11,10 @@ FIELD_TYPES = [
     ("Box<Cc<DLeaf>>", "Box::new({leaf})"),
     ("RefCell<Option<Cc<DLeaf>>>", "RefCell::new(Some({leaf}))"),
     ("(u32, Cc<DLeaf>)", "(7u32, {leaf})"),
+    # field types without drop glue (`needs_drop` is false) that still own a `Cc`: the macro must trace them like any other
+    ("ManuallyDrop<Cc<DLeaf>>", "ManuallyDrop::new({leaf})"),
+    ("Option<ManuallyDrop<Cc<DLeaf>>>", "Some(ManuallyDrop::new({leaf}))"),
+    ("[ManuallyDrop<Cc<DLeaf>>; 1]", "[ManuallyDrop::new({leaf})]"),
 ]
 
 
@@ -109,7 +113,7 @@ def gen(seed, n):
                 model.append("derive t%dv%d %d %d %s" % (i, v, v, 1 if vig else 0, flags(fs)))
     src = ["// GENERATED by tools/gen_derive.py (seed %d). Do not edit." % seed,
            "#![allow(dead_code, non_snake_case, unused_parens, clippy::all)]",
-           "use std::cell::RefCell;", "use rust_cc::{collect_cycles, Cc, Context, Finalize, Trace};",
+           "use std::cell::RefCell;", "use std::mem::ManuallyDrop;", "use rust_cc::{collect_cycles, Cc, Context, Finalize, Trace};",
            "use rust_cc::verif_hooks as hooks;", "",
            "pub struct DLeaf;", "unsafe impl Trace for DLeaf { fn trace(&self, _: &mut Context<'_>) {} }", "impl Finalize for DLeaf {}", ""]
     src += [d + "\n" for d in defs]
